@@ -151,3 +151,64 @@ func Explore(r *fw.Run, work bool, seeds []string, ops []Op, depth int, chk Chec
 		}
 	})
 }
+
+// ArgAlphabet are the pieces directory arguments are built from in ArgSweep: letters of one, two and three
+// bytes, every character the go.mod lexer treats specially, white space (ASCII and not), control and
+// invalid bytes. (No backslash: the parser refuses a replacement directory that contains one as a Windows
+// path on other systems, so such an argument is not a valid one.)
+var ArgAlphabet = []string{"a", "é", "日", " ", " ", "\"", "'", "`", "(", ")", "[", "]", "{", "}", ",", "/", "*", "\t", "\n", "\x01", "\x7f", "\xff", "=", ">", ";"}
+
+// ArgSweep checks the state invariant after ONE operation whose directory argument is every string over
+// ArgAlphabet up to maxLen pieces (behind "../" and "./"): AddReplace in a go.mod file, AddUse in a go.work
+// file. The history space is one operation deep; the dimension explored is the spelling of the argument
+// (what must be quoted when written, and comes back when read).
+func ArgSweep(r *fw.Run, chk Checker, maxLen int) {
+	var args []string
+	var rec func(cur string, n int)
+	rec = func(cur string, n int) {
+		if n > 0 {
+			args = append(args, cur)
+		}
+		if n == maxLen {
+			return
+		}
+		for _, a := range ArgAlphabet {
+			rec(cur+a, n+1)
+		}
+	}
+	rec("", 0)
+	r.Bounds["argument_sweep"] = fmt.Sprintf("%d directory arguments (<= %d pieces of %d) x {AddReplace on 2 go.mod seeds, AddUse on a go.work seed}", len(args), maxLen, len(ArgAlphabet))
+	modSeeds := []string{"module example.com/m\n", "module example.com/m\n\ngo 1.21\n\nreplace (\n\tb.com/y => ../y\n\tc.com/z v1.0.0 => ../z\n)\n"}
+	workSeed := "go 1.21\n\nuse ./a\n"
+	fw.Parallel(16, func(sh int) {
+		l := fw.NewLocal()
+		defer r.Merge(l)
+		for i := sh; i < len(args); i += 16 {
+			var cases []Case
+			for si, seed := range modSeeds {
+				cases = append(cases, Case{Work: false, Seed: seed, SeedIdx: 100 + si, Hist: []Op{{Kind: "AddReplace", A: []string{"a.com/x", "", "../" + args[i], ""}}}, Check: "state"})
+			}
+			cases = append(cases, Case{Work: true, Seed: workSeed, SeedIdx: 100, Hist: []Op{{Kind: "AddUse", A: []string{"./" + args[i], ""}}}, Check: "state"})
+			for _, c := range cases {
+				if _, err := Replay(c.Work, c.Seed, c.Hist); err != nil {
+					c.Check = "panic"
+					r.Violation(c.Key(), fmt.Sprintf("operation panicked: %v (history %s)", err, HistString(c.Hist)), c)
+					continue
+				}
+				l.States++
+				l.Execs += 2
+				l.Transitions++
+				msg, nt := chk.State(c)
+				if nt {
+					l.Nontrivial++
+				}
+				if msg != "" {
+					l.Outcomes["argument-sweep:VIOLATION"]++
+					r.Violation(c.Key(), msg, c)
+				} else {
+					l.Outcomes["argument-sweep:ok"]++
+				}
+			}
+		}
+	})
+}
